@@ -1313,6 +1313,9 @@ func (sc *serverConn) processFrameFromReader(res readFrameResult) bool {
 		log.Logger.Debug("http2: network error from %v: %v", sc.conn.RemoteAddr(), ev)
 		return false
 	case StreamError:
+		if res.err != nil && sc.framer.headersStreamErr {
+			sc.noteRejectedHeaders(ev.StreamID)
+		}
 		sc.resetStream(ev)
 		return true
 	case goAwayFlowError:
@@ -1331,6 +1334,26 @@ func (sc *serverConn) processFrameFromReader(res readFrameResult) bool {
 				sc.conn.RemoteAddr(), err)
 		}
 		return false
+	}
+}
+
+// noteRejectedHeaders records that the client used stream id for a
+// HEADERS frame whose header block was malformed and was therefore
+// rejected by the framer before processHeaders could see it.
+//
+// RFC 7540 section 5.1.1: the frame opened the stream (which is then
+// reset), so the identifier is used up: it must not be accepted for a new
+// stream later, and the stream is "closed", not "idle", for frames that
+// follow (e.g. a RST_STREAM from the client).
+func (sc *serverConn) noteRejectedHeaders(id uint32) {
+	sc.serveG.Check()
+	if sc.inGoAway || id%2 != 1 {
+		// same as processHeaders: ignored after GOAWAY; not a
+		// client-initiated stream identifier
+		return
+	}
+	if id > sc.maxStreamID {
+		sc.maxStreamID = id
 	}
 }
 
